@@ -375,7 +375,11 @@ def thread_fn(case, i, t):
             env = Env18(case['script'], th.get('plan') or {})
             env.shift = th['shift']
             env.tag = '@%d' % i
-            env.extra_names = {'X_EA': E.EA, 'X_EAB': E.EAB,
+            # computed exception classes differ per thread
+            rot_a = [E.EA, E.EX, KeyError]
+            rot_b = [E.EAB, ValueError, E.EA]
+            env.extra_names = {'X_EA': rot_a[th['shift'] % 3],
+                               'X_EAB': rot_b[th['shift'] % 3],
                                'URL': 'http://h/p', 'RESPONSE': c08.Resp()}
             env.extra_names.update(case.get('req', {}))
             kw = env.namespace(case['names'])
